@@ -222,6 +222,16 @@ func (ex *Exec) eventName(fn *types.Func, call *ast.CallExpr) (string, bool) {
 		return "", false
 	}
 	if fn != nil {
+		if fn.Name() == "P" && len(ex.pEvents) > 0 && call != nil && len(ex.inlineStack) == 0 {
+			// emitted text: a P call whose literal arguments contain a substring the contract counts (count("P:<substring>"))
+			for _, want := range ex.pEvents {
+				for _, a := range call.Args {
+					if bl, ok := a.(*ast.BasicLit); ok && bl.Kind == token.STRING && strings.Contains(bl.Value, want) {
+						return "P:" + want, true
+					}
+				}
+			}
+		}
 		if ex.contract != nil && len(ex.inlineStack) == 0 {
 			// a callee named by an at-call clause of the unit under verification is an event of that unit
 			for _, ac := range ex.contract.AtCall {
